@@ -24,24 +24,57 @@ func analyseDecodeArg(a *Term, param string) (upper, trim, pad bool, why string)
 		case cur.Op == "call" && cur.Sym == "strings.TrimSpace" && len(cur.Args) == 1:
 			trim = true
 			cur = cur.Args[0]
-		case cur.Op == "ite":
-			// ite(len(Y)%8 == 0; Y; Y + Repeat("=", 8 - len(Y)%8))
-			cnd, y, padded := cur.Args[0], cur.Args[1], cur.Args[2]
-			rem := "bin(%; len(" + y.String() + "); const(8))"
-			okC := cnd.String() == "bin(==; "+rem+"; const(0))" || cnd.String() == "bin(==; const(0); "+rem+")"
-			wantPad := "bin(+; " + y.String() + "; call(strings.Repeat; const(\"=\"); bin(-; const(8); " + rem + ")))"
-			if !okC || padded.String() != wantPad {
+		case cur.Op == "ite" && len(cur.Args) == 3:
+			// (cond over r = len(Y)%8) ? Y + pad : Y, in either orientation
+			cnd, t1, t2 := cur.Args[0], cur.Args[1], cur.Args[2]
+			var y *Term
+			switch {
+			case t1.Op == "bin" && t1.Sym == "+" && t1.Args[0].String() == t2.String():
+				y = t2
+			case t2.Op == "bin" && t2.Sym == "+" && t2.Args[0].String() == t1.String():
+				y = t1
+			default:
 				return upper, trim, pad, "the re-padding is not 'append \"=\" × (8 − len%8) when len%8 ≠ 0': " + clip(cur.String(), 200)
+			}
+			rem := "bin(%; len(" + y.String() + "); const(8))"
+			for r := int64(0); r < 8; r++ {
+				cv, ok := evalSmall(cnd, rem, r)
+				if !ok {
+					return upper, trim, pad, "the re-padding condition is not a comparison of len%8: " + clip(cnd.String(), 160)
+				}
+				br := t2
+				if cv != 0 {
+					br = t1
+				}
+				n := int64(0)
+				if br != y {
+					cnt, ok := padCount(br.Args[1])
+					if !ok {
+						return upper, trim, pad, "the appended padding is not a run of \"=\": " + clip(br.Args[1].String(), 160)
+					}
+					if n, ok = evalSmall(cnt, rem, r); !ok {
+						return upper, trim, pad, "the padding amount is not a function of len%8: " + clip(cnt.String(), 160)
+					}
+				}
+				if n != (8-r)%8 {
+					return upper, trim, pad, fmt.Sprintf("the re-padding is not 'append \"=\" × (8 − len%%8) when len%%8 ≠ 0': for len%%8 = %d it appends %d", r, n)
+				}
 			}
 			pad = true
 			padInner = y
 			cur = y
-		case cur.Op == "bin" && cur.Sym == "+" && len(cur.Args) == 2 && cur.Args[1].Op == "call" && cur.Args[1].Sym == "strings.Repeat":
+		case cur.Op == "bin" && cur.Sym == "+" && len(cur.Args) == 2:
 			y := cur.Args[0]
 			rem := "bin(%; len(" + y.String() + "); const(8))"
-			want := "call(strings.Repeat; const(\"=\"); bin(%; bin(-; const(8); " + rem + "); const(8)))"
-			if cur.Args[1].String() != want {
-				return upper, trim, pad, "unguarded padding is not \"=\" × ((8 − len%8) % 8): " + clip(cur.Args[1].String(), 160)
+			cnt, ok := padCount(cur.Args[1])
+			if !ok {
+				return upper, trim, pad, "the text handed to the decoder goes through a step the checker does not know: " + clip(cur.String(), 200)
+			}
+			for r := int64(0); r < 8; r++ {
+				n, ok := evalSmall(cnt, rem, r)
+				if !ok || n != (8-r)%8 {
+					return upper, trim, pad, "unguarded padding is not \"=\" × ((8 − len%8) % 8): " + clip(cur.Args[1].String(), 160)
+				}
 			}
 			pad = true
 			padInner = y
@@ -51,6 +84,96 @@ func analyseDecodeArg(a *Term, param string) (upper, trim, pad bool, why string)
 		}
 	}
 	return upper, trim, pad, "normalisation chain too long"
+}
+
+// padCount: the number of "=" characters a padding term stands for, as a term.
+func padCount(t *Term) (*Term, bool) {
+	allEq := func(c *Term) (int, bool) {
+		if !c.IsConst() || len(c.Sym) < 3 || c.Sym[0] != '"' {
+			return 0, false
+		}
+		body := c.Sym[1 : len(c.Sym)-1]
+		if body == "" || strings.Trim(body, "=") != "" {
+			return 0, false
+		}
+		return len(body), true
+	}
+	switch {
+	case t.Op == "call" && t.Sym == "strings.Repeat" && len(t.Args) == 2 && t.Args[0].IsConst() && t.Args[0].Sym == `"="`:
+		return t.Args[1], true
+	case t.Op == "slice" && len(t.Args) >= 3:
+		n, ok := allEq(t.Args[0])
+		if !ok {
+			return nil, false
+		}
+		lo, hi := t.Args[1], t.Args[2]
+		if lo.Op == "none" {
+			lo = mk("const", "0")
+		}
+		if hi.Op == "none" {
+			hi = mk("const", fmt.Sprint(n))
+		}
+		return mk("bin", "-", hi, lo), true
+	}
+	if n, ok := allEq(t); ok {
+		return mk("const", fmt.Sprint(n)), true
+	}
+	return nil, false
+}
+
+// evalSmall folds an integer/boolean term in which the only unknown is the sub-term printed as sym, given value v.
+func evalSmall(t *Term, sym string, v int64) (int64, bool) {
+	if t.String() == sym {
+		return v, true
+	}
+	switch {
+	case t.IsConst():
+		var n int64
+		if _, err := fmt.Sscanf(t.Sym, "%d", &n); err != nil || fmt.Sprint(n) != t.Sym {
+			return 0, false
+		}
+		return n, true
+	case t.Op == "conv" && len(t.Args) == 1:
+		return evalSmall(t.Args[0], sym, v)
+	case t.Op == "bin" && len(t.Args) == 2:
+		a, ok1 := evalSmall(t.Args[0], sym, v)
+		b, ok2 := evalSmall(t.Args[1], sym, v)
+		if !ok1 || !ok2 {
+			return 0, false
+		}
+		bb := func(x bool) (int64, bool) {
+			if x {
+				return 1, true
+			}
+			return 0, true
+		}
+		switch t.Sym {
+		case "+":
+			return a + b, true
+		case "-":
+			return a - b, true
+		case "*":
+			return a * b, true
+		case "%":
+			if b == 0 {
+				return 0, false
+			}
+			return a % b, true
+		case "==":
+			return bb(a == b)
+		case "!=":
+			return bb(a != b)
+		case "<":
+			return bb(a < b)
+		case "<=":
+			return bb(a <= b)
+		case ">":
+			return bb(a > b)
+		case ">=":
+			return bb(a >= b)
+		}
+	}
+	return 0, false
 }
 
 func runC07(c *Check, w *World) {
